@@ -7,8 +7,8 @@
 (* Join types: every stage may be AND; a non-AND join type is put only on  *)
 (* a real join (>= 2 requisites; with fewer, "any" and "all" upstreams     *)
 (* coincide), on at most MaxNonAnd stages of a list, in lists of at most   *)
-(* JoinMaxLen stages, and - when JoinUniqueOnly - only while the refs are  *)
-(* unique (lists with duplicate refs are rejected before any ordering).    *)
+(* JoinMaxLen stages, and - when JoinUniqueOnly - only in lists whose refs  *)
+(* are unique (a list with duplicate refs is rejected before any ordering).*)
 (* Every distinct state is exported once, with the verdicts the            *)
 (* definitions of Graph give for it, through the side effect of the        *)
 (* invariant Export (TLC evaluates invariants on new distinct states only).*)
@@ -22,13 +22,17 @@ Init == g = <<>>
 
 NonAnd(gr) == Cardinality({i \in Idx(gr) : gr[i].join # "AND"})
 
+\* may stage s be appended to gr ?  (the restrictions on non-AND join types, see above)
+JoinAllowed(gr, s) ==
+  LET grs == Append(gr, s)
+  IN  /\ (s.join = "AND") \/ ( /\ Cardinality(s.reqs) >= 2
+                               /\ NonAnd(gr) < MaxNonAnd )
+      /\ (NonAnd(grs) = 0) \/ ( /\ Len(grs) <= JoinMaxLen
+                                /\ (~JoinUniqueOnly) \/ UniqueRefs(grs) )
+
 AddStage(s) == /\ Len(g) < MaxLen
+               /\ JoinAllowed(g, s)
                /\ g' = Append(g, s)
-               /\ s.join # "AND" => /\ Cardinality(s.reqs) >= 2
-                                     /\ NonAnd(g) < MaxNonAnd
-                                     /\ JoinUniqueOnly => UniqueRefs(g')
-               \* a list that carries a non-AND join grows only up to JoinMaxLen stages
-               /\ NonAnd(g') > 0 => Len(g') <= JoinMaxLen
 
 Next == \E s \in Stage : AddStage(s)
 
